@@ -24,11 +24,17 @@ def run(ctx):
         raise vlib.ToolError("%s printed %d paths for %d states" % (cfg, len(paths), r.distinct))
     stats = {"executed": 0, "execute_too_early": 0, "execute_approver_revoked": 0, "execute_unapproved": 0,
              "approve_twice": 0, "approve_without_role": 0, "rerun_closed": 0, "create_bad_signer": 0,
-             "delay_increased": 0, "recreated": 0}
+             "delay_increased": 0, "recreated": 0, "executed_readonly_signer": 0, "executed_wallet_listed_twice": 0,
+             "executed_no_accounts": 0, "executed_empty_data": 0, "executed_nonsigner_wallet": 0}
     seen = set()
     total = 0
-    runs = [("replay", ["replay", "--in", ctx.path("paths.ndjson"), "--probe", 1]),
-            ("random", ["random", "--seed", ctx.seed, "--n", 150 if q else 2000, "--len", 40])]
+    # the model's shape classes (1: the wallet signs, 2: nobody signs, 3: a foreign signer) are executed as four
+    # variants of concrete account lists: all (signer, writable) combinations on the wallet, the wallet listed several
+    # times with different flags, no accounts, empty data.  Variant 0 with the per-state probes.
+    runs = [("replay", ["replay", "--in", ctx.path("paths.ndjson"), "--probe", 1])]
+    runs += [("replay-v%d" % v, ["replay", "--in", ctx.path("paths.ndjson"), "--variant", v] + ([] if q else ["--probe", 1]))
+             for v in (1, 2, 3)]
+    runs += [("random", ["random", "--seed", ctx.seed, "--n", 150 if q else 2000, "--len", 40])]
     vlib.write_ndjson(ctx.path("paths.ndjson"), paths)
     for name, args in runs:
         tr = ctx.path(name + ".trace.ndjson")
@@ -42,6 +48,12 @@ def run(ctx):
             if e["op"] == "execute":
                 if e["ok"]:
                     stats["executed"] += 1
+                    ms = e["buffered"]["metas"]
+                    stats["executed_readonly_signer"] += any(m["signer"] and not m["writable"] for m in ms)
+                    stats["executed_wallet_listed_twice"] += sum(m["key"] == "W" for m in ms) > 1
+                    stats["executed_no_accounts"] += len(ms) == 0
+                    stats["executed_empty_data"] += len(e["buffered"]["data"]) == 0
+                    stats["executed_nonsigner_wallet"] += any(m["key"] == "W" and not m["signer"] for m in ms)
                 elif b["st"] == "approved":
                     if b["approver"] not in pre["holds"]:
                         stats["execute_approver_revoked"] += 1
@@ -55,7 +67,7 @@ def run(ctx):
                 stats["approve_twice"] += b["st"] == "approved"
                 stats["approve_without_role"] += b["st"] == "created" and e["x"] not in pre["holds"]
             elif e["op"] == "create":
-                stats["create_bad_signer"] += (not e["ok"]) and e["x"] == 3
+                stats["create_bad_signer"] += (not e["ok"]) and e["x"] % 10 == 3
                 stats["recreated"] += e["ok"] and b["st"] in ("executed", "cancelled")
             elif e["op"] == "increase_delay":
                 stats["delay_increased"] += e["ok"]
@@ -66,8 +78,15 @@ def run(ctx):
             ctx.report(classify(e, f["mon"]), {"driver": "h-aux c36 " + " ".join(map(str, args)), "event": e})
     ctx.distinct += len(seen)
     for k, v in stats.items():
-        if v == 0:
+        if v == 0 and not ctx.violations:
             raise vlib.ToolError("vacuity: no event of class %s" % k)
+    # 3. the same property on the in-process program runtime (real timelock + store entrypoints, CPI privilege rules)
+    try:
+        from props import c36rt
+    except ImportError:
+        c36rt = None
+    if c36rt is not None:
+        c36rt.run_rt(ctx)
     ctx.assumptions += [
         "one executor role; the keeper and the admin always hold TIMELOCK_KEEPER / TIMELOCK_ADMIN (the role gates are C19's)",
         "system create_account is emulated, the buffered instruction's callee is a recording probe; a failed instruction is "
